@@ -106,6 +106,14 @@ class Scheduler:
             self.bi = 0
             self.countdown = self.pre[0][0] if self.pre else -1
             self.preemptions = 0
+            # which of the other runnable threads takes over at a forced line-level preemption (index into
+            # the other candidates); None: taken from `blk`
+            self.line_pick = sparse.get("line_pick")
+            self.preempt_cands = None  # number of candidates seen at the (last) forced line preemption
+            # "delay": the preempted thread stays suspended until no other thread can run (one preemption =
+            # one long delay); "yield": it competes again as soon as the thread that took over blocks
+            self.line_mode = sparse.get("line_mode", "delay")
+            self.delayed = None
         self.now = 0.0
         self.tls = threading.local()
         self.back = _thread.allocate_lock()
@@ -323,6 +331,13 @@ class Scheduler:
                 pick = self.pre[self.pi][1]
                 self.pi += 1
                 self.countdown = self.pre[self.pi][0] if self.pi < len(self.pre) else -1
+            elif self.line_pick is not None:
+                self.preempt_cands = len(cands)
+                if self.line_pick >= len(cands) - 1:
+                    return cands[0]  # no such alternative here: the enumeration may stop for this line
+                pick = self.line_pick
+                if self.line_mode == "delay":
+                    self.delayed = cands[0]
             else:
                 if self.bi < len(self.blk):
                     pick = self.blk[self.bi]
@@ -335,6 +350,12 @@ class Scheduler:
             return cands[0]
         # the thread that ran last blocked or ended: free choice among the runnable ones
         self.force_other = False
+        if self.delayed is not None:
+            others = [t for t in cands if t is not self.delayed]
+            if others:
+                cands = others
+            else:
+                self.delayed = None
         if len(cands) == 1:
             return cands[0]
         pick = 0
